@@ -128,8 +128,19 @@ def model_request(case, res):
             "surfaces": o["surfaces"], "data": o["data"]}
 
 
+# stored inputs that run first: minimised past failures (each is named in known_findings.json under "fixed")
+CORPUS = [
+    # eed8b67: a C comment between an entry and the repeat shortcut after it was written twice
+    ("corpus-shortcut-comment", "shortcut comment\n1 0 -1\n2 0 1 -2\n3 0 2 -3\n4 0 3 -4\n5 0 4\n\n1 so 1\n2 so 2\n3 so 3\n4 so 4\n\n"
+     "imp:n 1 1 1 1 0\nu 2j 37\nC fuel region\n       2r\nnps 10\n\n"),
+    # 3f161a1: the line break after a cell modifier's value was replaced by a blank
+    ("corpus-modifier-line-break", "line break after vol\n837 0 (927 :     113 ) 8   113    113 -8   imp:n=2.0000     Imp:P=1 vol=31.0\n     U 20\n"
+     "2 0 -8 imp:n,p=1 u=20\n\n8 so 1\n113 so 2\n927 so 3\n\nmode n p\n\n"),
+]
+
+
 def gen_cases(chk):
-    cases = []
+    cases = [{"kind": "gen", "name": n, "limit": lim, "text": t, "style": "plain"} for n, t in CORPUS for lim in (128, 80)]
     for name, text in wholefile.fixtures():
         for lim in (128, 80):
             cases.append({"kind": "fixture", "name": name, "limit": lim, "text": wholefile.ascii_clean(text)})
